@@ -462,6 +462,20 @@ func (p *PacketConn) InjectFrom(data []byte, from *net.UDPAddr) {
 	p.enqueue(append([]byte(nil), data...), from, -1)
 }
 
+// InjectBatchFrom delivers several datagrams AT ONCE: all of them are in the receive queue before the reader
+// can take the first one (datagrams that arrived back to back while the reader was busy). from[i] is the source
+// of datas[i]. (C10 burst stage; additive.)
+func (p *PacketConn) InjectBatchFrom(datas [][]byte, from []*net.UDPAddr) {
+	p.mu.Lock()
+	if !p.closed && !p.BlackHole {
+		for i, d := range datas {
+			p.q = append(p.q, pkt{append([]byte(nil), d...), from[i], -1})
+		}
+		p.cond.Broadcast()
+	}
+	p.mu.Unlock()
+}
+
 func (p *PacketConn) WriteTo(b []byte, addr net.Addr) (int, error) {
 	p.mu.Lock()
 	if p.closed {
